@@ -156,8 +156,8 @@ def distinct_layers(heights, period, tol_same, tol_apart):
     """heights modulo period clustered into layers.
     returns (layers sorted in [0,period), ambiguous flag): two heights closer than tol_same (circularly) are one
     layer, farther than tol_apart are two; anything in between makes the layer structure ambiguous"""
-    h = np.sort(np.mod(np.asarray(heights, dtype=float), period))
-    h = h[h < period]                    # mod can return period itself through rounding
+    h = np.mod(np.asarray(heights, dtype=float), period)
+    h = np.sort(np.where(h >= period, 0.0, h))        # mod can return period itself through rounding (-1e-17)
     if len(h) == 0:
         return np.array([]), False
     layers = [h[0]]
